@@ -142,6 +142,22 @@ def check(program: Program, run: Run) -> None:
         if not ok:
             run.finding(f"C10/tail-wrap:{bn}", f"{bn}.get_sql does not end in a single parenthesised wrap followed only by the alias suffix ({detail})", rule="R2")
 
+    # a context bound before a loop over operands / clauses and rebound inside it is seen, rebound, by every later
+    # iteration: the flags (and conventions) an operand is rendered with then depend on the operands before it
+    seen_carried = set()
+    for c_, (skv_, ev_) in skeletons(program).items():
+        for note in getattr(ev_, "notes", []):
+            if note and note[0] == "ctx-loop-carried":
+                src_, name_ = note[1], note[2]
+                key_ = (src_[0] if src_ else c_.qualname, name_)
+                if key_ in seen_carried:
+                    continue
+                seen_carried.add(key_)
+                run.ob("C10 no rendering context is rebound inside the loop that consumes it", f"{key_[0]}:{name_}", False, where=f"{src_[2]}:{src_[1]}" if src_ else "")
+                run.finding(f"C10/context-carried-between-iterations:{key_[0]}:{name_}",
+                            f"{key_[0]} rebinds the context `{name_}` inside the loop that renders with it: an operand rendered after the rebinding gets the flags meant for an earlier one "
+                            "(the same query renders differently depending on what precedes it)", where=f"{src_[2]}:{src_[1]}" if src_ else "", rule="R3")
+    run.ob("C10 no rendering context is rebound inside the loop that consumes it", "all renderers", not seen_carried, detail=f"{len(seen_carried)} rebinding(s)")
     # ---- R3 embedding sites
     found = set()
     # a join object is only ever rendered by a statement: a flag its renderer passes on unchanged has the value the
